@@ -206,6 +206,8 @@ structure Req where
   /-- ghost (read by no step function): `(created, pulled)` at the moment the spawner was first cancelled while it was
   suspended or had not begun (not from inside its own handle, i.e. not re-entrantly from its own argument iterator) -/
   cancelSnap : Option (Nat × Nat) := none
+  /-- ghost (read by no step function): `Task.cancel()` was called on the spawner at least once before it was done -/
+  everCancelled : Bool := false
 deriving Repr, Inhabited
 
 inductive Child | task (t : Nat) | spawner (m : Nat)
